@@ -114,3 +114,99 @@ class CoreGen:
         for x in self.refs:
             rules[x] = {'kind': 'rule', 'params': [], 'body': sub.expr(1)}
         return {'rules': rules, 'ign': [], 'start': 'start'}
+
+
+class OpGen:
+    """Random operator tables (C02)."""
+    SPELL = ['-', '+', '++', '-+', '!', '<', '*']
+
+    def __init__(self, rng):
+        self.rng = rng
+
+    def table(self, max_rows=3, allow_mixfix=True):
+        r = self.rng
+        nrows = r.randint(1, max_rows)
+        rows = []
+        kinds = ['left', 'right', 'infix', 'prefix', 'postfix'] + (['mixfix'] if allow_mixfix else [])
+        for _ in range(nrows):
+            assoc = r.choice(kinds)
+            if assoc == 'mixfix':
+                ops = [['left', ['right', S('('), ['ref', 'E']], S(')')]]
+            else:
+                ops = [S(x) for x in r.sample(self.SPELL, r.choice([1, 1, 2]))]
+            rows.append([assoc, ops])
+        operand = r.choice([S('1'), ['ref', 'N'], ['ref', 'N'], ['seq', [S('1'), S('2')]],
+                            ['choice', [S('1'), S('2')]], ['ref', 'M']])
+        return ['optable', operand, rows]
+
+    def grammar(self, max_rows=3, ctx=0):
+        t = self.table(max_rows)
+        body = t
+        rest = ['rx', ['star', cls('12-+!<*() '), True], False]
+        if ctx == 1:
+            body = ['choice', [['left', ['ref', 'E'], S(';')], rest]]
+        elif ctx == 2:
+            body = ['seq', [['opt', ['left', ['ref', 'E'], S(';')]], rest]]
+        elif ctx == 3:
+            body = ['seq', [['ref', 'E'], rest]]
+        elif ctx == 4:
+            body = ['choice', [t, rest]]              # the table itself is the alternative
+        elif ctx == 5:
+            body = ['seq', [['opt', t], rest]]
+        else:
+            body = ['ref', 'E']
+        rules = {
+            'start': {'kind': 'rule', 'params': [], 'body': body},
+            'E': {'kind': 'rule', 'params': [], 'body': t},
+            'N': {'kind': 'rule', 'params': [], 'body': ['rx', cls('12'), False]},
+            'M': {'kind': 'rule', 'params': [], 'body': ['seq', [S('1'), ['opt', S('2')]]]},
+        }
+        self.last_table = t
+        return {'rules': rules, 'ign': [], 'start': 'start'}
+
+    def sentence(self, maxlen=7, table=None):
+        """Mostly well-formed sentences over the table's own operators, with
+        truncations and stray tokens."""
+        r = self.rng
+        if table is None or r.random() < 0.15:
+            toks = ['1', '2', '1', '-', '+', '++', '-+', '!', '<', '*', '(', ')', ';']
+            return T(''.join(r.choice(toks) for _ in range(r.randint(0, maxlen))))
+        pre, post, inf, mix = [], [], [], False
+        for assoc, ops in table[2]:
+            sp = [''.join(chr(c) for c in o[1]) for o in ops if o[0] == 'str']
+            if assoc == 'prefix':
+                pre += sp
+            elif assoc == 'postfix':
+                post += sp
+            elif assoc == 'mixfix':
+                mix = True
+            else:
+                inf += sp
+        out = []
+
+        def operand(depth):
+            while pre and r.random() < 0.3:
+                out.append(r.choice(pre))
+            if mix and depth < 2 and r.random() < 0.2:
+                out.append('(')
+                expr(depth + 1)
+                out.append(')')
+            else:
+                out.append(r.choice(['1', '2', '1', '12']))
+            while post and r.random() < 0.3:
+                out.append(r.choice(post))
+
+        def expr(depth):
+            operand(depth)
+            while inf and r.random() < 0.6 and len(out) < maxlen:
+                out.append(r.choice(inf))
+                if r.random() < 0.12:
+                    return
+                operand(depth)
+
+        expr(0)
+        if r.random() < 0.3:
+            out.append(r.choice([';', ';', ')', '1', '-', '+', '!']))
+        if r.random() < 0.1 and out:
+            out.pop(r.randrange(len(out)))
+        return T(''.join(out))
